@@ -326,7 +326,24 @@ func init() {
 			if si, ok := nk.GetValidatorSigningInfo(ctx, v.Address); ok {
 				ju = fmt.Sprint(si.JailedUntil.Unix())
 			}
-			nodes[roleOf(v.Address)] = map[string]string{"status": fmt.Sprint(int(v.Status)), "jailed": fmt.Sprint(v.Jailed), "tokens": v.StakedTokens.String(), "chains": strings.Join(v.Chains, "+"),
+			// the node as the lookups see it: the chains whose by-chain index lists it (session candidates) and
+			// whether the staked-validator set holds it
+			var listed []string
+			for _, ch := range []string{"0001", "0002", "0003"} {
+				as, _ := nk.GetValidatorsByChain(ctx, ch)
+				for _, a := range as {
+					if a.Equals(v.Address) {
+						listed = append(listed, ch)
+					}
+				}
+			}
+			inSet := false
+			for _, sv := range nk.GetStakedValidators(ctx) {
+				if sv.GetAddress().Equals(v.Address) {
+					inSet = true
+				}
+			}
+			nodes[roleOf(v.Address)] = map[string]string{"listed_on": strings.Join(listed, "+"), "in_staked_set": fmt.Sprint(inSet), "status": fmt.Sprint(int(v.Status)), "jailed": fmt.Sprint(v.Jailed), "tokens": v.StakedTokens.String(), "chains": strings.Join(v.Chains, "+"),
 				"url": v.ServiceURL, "output": roleOf(v.OutputAddress), "delegators": strings.Join(ds, "+"), "pubkey": roleOfPub(v.PublicKey.RawBytes()), "address": roleOf(v.Address),
 				"unstaking": fmt.Sprint(v.UnstakingCompletionTime.Unix()), "waiting": fmt.Sprint(nk.IsWaitingValidator(ctx, v.Address)), "jailed_until": ju}
 		}
